@@ -23,15 +23,13 @@ func (certificateRequest *CertificateRequest) Marshal() ([]byte, error) {
 }
 
 func (certificateRequest *CertificateRequest) Unmarshal(b []byte) error {
-	if len(b) > 0 {
-		// bounds checking
-		if len(b) <= 1 {
-			return errors.Errorf("CertificateRequest: No sufficient bytes to decode next certificate request")
-		}
-
-		certificateRequest.CertificateEncoding = b[0]
-		certificateRequest.CertificationAuthority = append(certificateRequest.CertificationAuthority, b[1:]...)
+	// bounds checking
+	if len(b) <= 1 {
+		return errors.Errorf("CertificateRequest: No sufficient bytes to decode next certificate request")
 	}
+
+	certificateRequest.CertificateEncoding = b[0]
+	certificateRequest.CertificationAuthority = append(certificateRequest.CertificationAuthority, b[1:]...)
 
 	return nil
 }
